@@ -24,7 +24,7 @@ import (
 // ---------------------------------------------------------------- C15
 
 var c15Answers = []string{"valid", "valid_extra", "valid_big", "missing", "error", "wrong_log_key", "no_wit_sig", "bad_wit_sig", "other_wit", "corrupted", "other_log", "empty", "garbage"}
-var c15Net = []string{"redirloop:307", "redirloop:308", "redirloop:302", "", "", "", "status:400", "status:404", "status:409", "status:500", "status:503", "status:201", "drop", "droprsp", "redirect:301", "redirect:302", "redirect:307", "redirect:308", "trunc:3", "stall", "delay:700"}
+var c15Net = []string{"redirloop:307", "redirloop:308", "redirloop:302", "redirloop:303", "redirloop:301", "", "", "", "status:400", "status:404", "status:409", "status:500", "status:503", "status:201", "drop", "droprsp", "redirect:301", "redirect:302", "redirect:307", "redirect:308", "trunc:3", "stall", "delay:700"}
 
 type distWitness struct {
 	answers map[string][]byte
@@ -171,6 +171,12 @@ func c15Exec(t *testing.T, p *Plan) (r *c15Result) {
 				// a distributor (or something in front of it) whose redirect target is a friendly landing page
 				rw.WriteHeader(200)
 				rw.Write([]byte("welcome"))
+				return
+			}
+			if rq.Method == http.MethodGet && strings.HasPrefix(rq.URL.Path, "/distributor/v0/logs/") {
+				// the distributor serves its checkpoint resources to readers too (a PUT that a redirect turned into a GET lands here)
+				rw.WriteHeader(200)
+				rw.Write([]byte("a checkpoint somebody stored earlier\n"))
 				return
 			}
 			if rq.Method != http.MethodPut || !strings.HasPrefix(rq.URL.Path, "/distributor/v0/logs/") {
